@@ -207,6 +207,23 @@ CHECKS = {
         "bounds": {"quick": "numeric depth 6", "thorough": "numeric depth 7"},
         "assumptions": COMMON_ASSUME,
     },
+    "C18": {
+        "bin": "c18",
+        "quick": cfgs(["dflt", "rdx", "fmt", "rdxfmt"], features="catalogue"),
+        "thorough": cfgs(["dflt", "p2", "rdx", "fmt", "rdxfmt", "cmprdxfmt"], features="catalogue"),
+        "rule": "run-time enumeration of NumberFormatBuilder (feature sets with format + power-of-two): all 2^18 syntax-flag vectors; all 2^13 separator-flag "
+                "vectors x separator byte {none,_} x no_special; every value 0..255 of the separator, prefix and suffix byte x mantissa radix {10,16,36,2} x "
+                "exponent radix {unset,16,36}; all 13^3 triples of punctuation bytes from a set of typical and illegal characters x separator flags on/off; "
+                "every value 0..255 of each radix field and all 38^3 (mantissa radix, exponent base, exponent radix) triples. For each: build_strict panics "
+                "<=> the reference validity predicate (written from the documented constraints) rejects it, every getter returns what the setter stored, "
+                "rebuild(build_unchecked(b)) reproduces b field by field and is a fixed point. Options builders: exponent / decimal-point bytes 0..255, "
+                "special strings of length 0..52 (wrong first letter, digits, non-ASCII, spaces), digit counts and exponent breaks: is_valid <=> build().is_ok "
+                "<=> reference. Compile-time: format_is_valid / format_error of every generated catalogue format vs the reference; 18 invalid formats (one per "
+                "class) and 10 invalid punctuation option sets through all parse entry points on every string of <= L tokens over {+,-,0,1,.,e,x}: always "
+                "the configuration error, never a value or a panic; non-trivial = invalid configurations",
+        "bounds": {"quick": "input depth 4 for the invalid-format sweep", "thorough": "input depth 5"},
+        "assumptions": COMMON_ASSUME + ["the separator byte is compared only when a separator flag is set (build_unchecked drops it otherwise); an unset exponent base / radix equals the mantissa radix", "infinity_string = None while inf_string is set is not judged (setter docs and is_valid disagree)"],
+    },
 }
 
 # properties not claimed (reason). Kept current by hand.
